@@ -21,6 +21,9 @@ WRAPS = ("pthread_mutex_lock pthread_mutex_unlock pthread_cond_wait pthread_cond
          "nni_atomic_cas nni_atomic_swap_bool nni_atomic_get_bool nni_atomic_get "
          "nni_alloc nni_zalloc nni_free").split()
 
+# thorough tiers that need more than the default 1500 s wall clock to complete their bounds
+THOROUGH_DEADLINE_S = {"C05": 2700, "C10": 2700}
+
 # property -> (harness source, engine kind, level, rule text)
 CHECKS = {}
 
@@ -166,7 +169,10 @@ def cmd_run(pid, tier):
         os.unlink(res)
     env = dict(os.environ)
     env["ASAN_SYMBOLIZER_PATH"] = shutil.which("llvm-symbolizer") or ""
-    r = subprocess.run([exe, "--tier", tier, "--out", res], cwd=V, env=env)
+    extra = []
+    if tier == "thorough" and pid in THOROUGH_DEADLINE_S and "VERIF_DEADLINE_S" not in os.environ:
+        extra = ["--deadline", str(THOROUGH_DEADLINE_S[pid])]
+    r = subprocess.run([exe, "--tier", tier, "--out", res] + extra, cwd=V, env=env)
     if not os.path.exists(res):
         print(f"MACHINERY-ERROR: harness {pid} produced no result (rc={r.returncode})")
         return 2
